@@ -1945,6 +1945,10 @@ FN_NAME(init,_):
 
 	GCM_INIT arg1, arg2, arg3, arg4, arg5
 
+%ifdef SAFE_DATA
+        clear_scratch_xmms_avx_asm
+%endif ;; SAFE_DATA
+
 %ifidn __OUTPUT_FORMAT__, win64
 	vmovdqu	xmm6 , [rsp + 0*16]
 	add	rsp, 1*16
@@ -2071,6 +2075,10 @@ FN_NAME(dec,_finalize_):
 	vmovdqu	[rsp + 4*16],xmm15
 %endif
 	GCM_COMPLETE	arg1, arg2, arg3, arg4, DEC
+
+%ifdef SAFE_DATA
+        clear_scratch_xmms_avx_asm
+%endif ;; SAFE_DATA
 
 %ifidn __OUTPUT_FORMAT__, win64
 	vmovdqu	xmm15  , [rsp + 4*16]
